@@ -17,7 +17,7 @@ from ..spec import E, T, H, build, walk
 ID = "C08"
 LEVEL = "model_checking"
 RULE = ("family F = every element-rooted tree of depth <= 1, fan-out <= 2 over {div, span, html, "
-        "head, body} x {text, HTML(), two dependencies, two tagifiable objects}, plus curated "
+        "head, body, p with attribute values that need escaping} x {text, HTML(), two dependencies, two tagifiable objects}, plus curated "
         "deeper trees, top-level lists and documents; (a) every sequence of <= 2 (quick) / <= 3 "
         "(thorough) read-only operations: structural snapshot of receiver and arguments "
         "unchanged after every operation and every result equal to the result of that operation "
@@ -46,7 +46,8 @@ XS_HEAD = ["XS", ["E", "head", True, [], [["E", "title", True, [], [["T", "store
 XS_DIV = ["XS", ["E", "div", True, [["class", "st"]], [["T", "s"], D3]]]
 LEAVES = [T("a"), H("<i>h</i>"), D1, D2, X1, X2]
 KINDS = [lambda k: E("div", True, k), lambda k: E("span", False, k), lambda k: E("html", True, k),
-         lambda k: E("head", True, k), lambda k: E("body", True, k)]
+         lambda k: E("head", True, k), lambda k: E("body", True, k),
+         lambda k: E("p", True, k, [["title", "x\"&<y\n"], ["class", "a b"]])]
 
 CURATED = [
     E("html", True, [E("head", True, [E("title", True, [T("t")]), D1]),
@@ -177,6 +178,10 @@ def make_fn_seq(table_fn, builder, key):
         viols = []
         x = builder(spec)
         s0 = snap(x)
+        fresh = builder(spec)
+        comparable = key != "doc"      # HTMLDocument defines no ==
+        if comparable and not ((x == fresh) and (fresh == x)):
+            viols.append(("eq:identical-unequal", "two identically built objects compare unequal", {}))
         for k, name in enumerate(seq):
             bk = (key, repr(spec), name)
             if bk not in _BASE:
@@ -188,6 +193,10 @@ def make_fn_seq(table_fn, builder, key):
             if s1 != s0:
                 viols.append((f"mutates:{name}", f"{name} changed its receiver/argument",
                               {"sequence": seq[:k + 1], "before": s0, "after": s1}))
+                break
+            if comparable and not ((x == fresh) and (fresh == x)):
+                viols.append((f"eq-after:{name}", f"after {name} the object no longer compares equal (both ways) to an "
+                              "identically built one", {"sequence": seq[:k + 1]}))
                 break
             if r != _BASE[bk]:
                 viols.append((f"result-depends-on-history:{name}",
